@@ -366,10 +366,16 @@ def plan(tier: str, seed: int, scale: float = 1.0) -> List[Dict[str, Any]]:
     specs += [{"kind": "ext", "n": 5 if tier == "quick" else 6, "shard": i, "of": 4} for i in range(4)]
     nr = int((1500 if tier == "quick" else 12000) * scale)
     specs += [{"kind": "random", "seed": seed * 100 + i, "n": nr} for i in range(8 if tier == "quick" else 16)]
+    nf = int((4000 if tier == "quick" else 40000) * scale)
+    specs += [{"kind": "fuzz", "seed": seed * 100 + 50 + i, "n": nf} for i in range(2 if tier == "quick" else 12)]
     return specs
 
 
 def run_shard(spec: Dict[str, Any]) -> Dict[str, Any]:
+    if spec["kind"] == "fuzz":
+        from .fuzz_expr import run_child
+
+        return run_child("c12", spec)
     col = Collector(max_hashes=3000000, hash_len=10)
     cx = Ctx(col)
     if spec["kind"] in ("poly", "ext"):
@@ -427,5 +433,5 @@ def shrink_candidates(case):
 
 
 def label_requirements(tier: str) -> Dict[str, Any]:
-    return {"variant:mirror": 1000, "variant:random_perm": 500, "mutation:swap": 1000, "mutation:const": 1000,
+    return {"fuzz": 5000, "variant:mirror": 1000, "variant:random_perm": 500, "mutation:swap": 1000, "mutation:const": 1000,
             "mutation:var": 1000, "mutation:func": 100, "poly": 10000, "ext": 5000}
